@@ -3,16 +3,16 @@
 Python only fans the cases out, collects what the translators did and classifies; the oracle
 is the TLA+ specification (spec/lang/OklRules.tla, OklGen.tla, OklMutate.tla).
 """
-import os, re, subprocess, threading
+import json, os, re, subprocess, threading
 from concurrent.futures import ThreadPoolExecutor
-from vlib import Broken, run_replayer
+from vlib import Broken, sh
 
 MODES = ["serial", "openmp", "cuda", "hip", "opencl", "metal", "dpcpp"]
 LETTER = dict(zip(MODES, "sochlmd"))
 
 
 def jobs(ctx):
-    d = 4 if ctx.tier == "quick" else 8
+    d = 8 if ctx.tier == "quick" else 12
     try:
         return max(1, int(os.environ.get("VERIF_JOBS", d)))
     except ValueError:
@@ -32,11 +32,70 @@ def okl_env(ctx, lib, watchdog=20):
     return env
 
 
-class _Sub:
-    """what run_replayer needs from a ctx, with a private tmp dir per chunk"""
-    def __init__(self, ctx, n):
-        self.tmp = os.path.join(ctx.tmp, "chunk-%d" % n)
-        os.makedirs(self.tmp, exist_ok=True)
+def _report(text):
+    """the sanitizer report / stack dump in the replayer's output, from its first line on (a
+    stack overflow report has hundreds of frames: keep the head, where the error class and the
+    innermost frames are)"""
+    starts = [m.start() for m in re.finditer(r"^.*(?:ERROR: AddressSanitizer|runtime error:|ERROR: UndefinedBehaviorSanitizer)", text, re.M)]
+    if starts:
+        text = text[starts[0]:]
+    else:
+        m = re.search(r"^\s*#0 0x", text, re.M)
+        if m:
+            text = text[m.start():]
+    return text[:6000]
+
+
+def _run_chunk(ctx, exe, env, cases, tag, timeout):
+    """same protocol as vlib.run_replayer (restart after the crashing case), but the replayer's
+    stdout/stderr of every run is kept whole so that the HEAD of a report can be used"""
+    d = os.path.join(ctx.tmp, "chunk-%s" % tag)
+    os.makedirs(d, exist_ok=True)
+    inp, outp = os.path.join(d, "in.ndjson"), os.path.join(d, "out.ndjson")
+    with open(inp, "w") as f:
+        for c in cases:
+            f.write(json.dumps(c) + "\n")
+    open(outp, "w").close()
+    start, crashes = 0, []
+    while start < len(cases):
+        rc, out = sh([exe, inp, outp, str(start)], timeout=timeout, env=env)
+        if rc == 0:
+            break
+        last, done = None, -1
+        for line in open(outp):
+            try:
+                rec = json.loads(line)
+            except ValueError:
+                continue
+            if "crash" in rec:
+                last = rec
+            elif "beh" in rec:
+                done = max(done, rec["beh"])
+        if rc == 127 and "symbol lookup error" in out:
+            raise Broken("replayer and library out of sync (library rebuilt during the run?): %s" % out[-300:])
+        if last is None or last.get("beh", -1) < start:
+            last = {"crash": "exit-%d" % rc, "beh": max(done + 1, start), "step": -1}
+            marks = re.findall(r"^@@ (\d+) (\d+)$", out, re.M)
+            if marks and int(marks[-1][0]) >= start:
+                last["beh"], last["step"] = int(marks[-1][0]), int(marks[-1][1])
+        last["log"] = _report(out)
+        crashes.append(last)
+        start = last["beh"] + 1
+        lines = [l for l in open(outp) if '"crash"' not in l]
+        open(outp, "w").writelines(lines)
+    outs = {}
+    for line in open(outp):
+        try:
+            rec = json.loads(line)
+        except ValueError:
+            raise Broken("unparseable replayer output: %r" % line[:200])
+        if "beh" in rec and "r" in rec:
+            outs[rec["beh"]] = rec
+    return outs, crashes
+
+
+_stage = [0]
+RERUN_OK = [0]      # time-outs that did not repeat on the re-run
 
 
 def run_sources(ctx, exe, env, cases, njobs=None, timeout=3000):
@@ -47,6 +106,8 @@ def run_sources(ctx, exe, env, cases, njobs=None, timeout=3000):
     n = len(cases)
     if n == 0:
         return [], []
+    _stage[0] += 1
+    stage = _stage[0]
     per = max(1, min(400, (n + njobs * 4 - 1) // (njobs * 4)))
     chunks = [(s, min(n, s + per)) for s in range(0, n, per)]
     outs = [None] * n
@@ -55,8 +116,7 @@ def run_sources(ctx, exe, env, cases, njobs=None, timeout=3000):
 
     def work(ci):
         s, e = chunks[ci]
-        sub = _Sub(ctx, ci)
-        o, cr = run_replayer(sub, exe, env, cases[s:e], timeout=timeout, max_restarts=e - s + 2)
+        o, cr = _run_chunk(ctx, exe, env, cases[s:e], "%d-%d" % (stage, ci), timeout)
         with lock:
             for k, rec in o.items():
                 outs[s + k] = rec
@@ -69,6 +129,27 @@ def run_sources(ctx, exe, env, cases, njobs=None, timeout=3000):
         for f in [ex.submit(work, i) for i in range(len(chunks))]:
             f.result()
     crashes.sort(key=lambda c: c["case"])
+    # a time-out is reported only if it repeats when the case is run alone with a much longer
+    # watchdog (the machine may be heavily loaded); otherwise the re-run's result is used
+    kept = []
+    slow = [c for c in crashes if c["crash"] in ("TIMEOUT", "SANITIZER-SLOW") or c["crash"].startswith("exit--14")]
+    if slow:
+        env2 = dict(env)
+        env2["OKL_WATCHDOG"] = str(6 * int(env.get("OKL_WATCHDOG", "20")))
+        for c in crashes:
+            if c not in slow:
+                kept.append(c)
+                continue
+            o, cr = _run_chunk(ctx, exe, env2, [cases[c["case"]]], "%d-rerun-%d" % (stage, c["case"]), timeout)
+            if cr:
+                c2 = cr[0]
+                step = c2.get("step", -1)
+                kept.append({"case": c["case"], "crash": c2["crash"], "step": step,
+                             "mode": MODES[step] if 0 <= step < 7 else "?", "log": c2.get("log", "")})
+            else:
+                outs[c["case"]] = o.get(0)
+                RERUN_OK[0] += 1
+        crashes = kept
     return outs, crashes
 
 
@@ -133,6 +214,13 @@ def crash_site(log):
     return kind, "?"
 
 
+def replay_name(sig):
+    """file name for the replay artefact of a signature (readable prefix + hash: distinct
+    signatures never share a file)"""
+    import hashlib
+    return "%s-%s.ndjson" % (re.sub(r"[^A-Za-z0-9_.-]+", "_", sig)[:48], hashlib.sha1(sig.encode()).hexdigest()[:8])
+
+
 def err_class(msg):
     """normalise a translator diagnostic (names, numbers and quoted text removed)"""
     m = re.sub(r"\[[^\]]*\]", "[]", msg or "")
@@ -140,3 +228,7 @@ def err_class(msg):
     m = re.sub(r"\d+", "#", m)
     m = re.sub(r"[^A-Za-z#\[\]@ ]+", " ", m)
     return "_".join(m.split())[:70]
+
+
+def report(ctx, sig, what, content):
+    ctx.mismatch(sig, what, content, replay_name=replay_name(sig))
